@@ -6,6 +6,7 @@ import (
 	"math/big"
 	"math/rand"
 	"time"
+	"verifharness/ledger"
 
 	"github.com/bartossh/Computantis/src/spice"
 
@@ -340,6 +341,12 @@ func init() {
 			if w.Batch == w.Batches-1 {
 				c05LedgerWorker(w)
 				return
+			}
+			if w.Batch == w.Batches-2 {
+				// a ledger history with amounts near 2^63 hopping through several wallets and being checkpointed: no
+				// value may be created or destroyed (checkpoint funds = net flow, balances unchanged, supply conserved)
+				rng := core.Rand(w.Seed, "C05whale", w.Batch)
+				longScenario(w, []string{"C05"}, 700, ledger.LongOpts{Nodes: 1, Size: 1015 + rng.Intn(40), Truncations: 1, PostOps: 20, Whale: true})
 			}
 			c05Worker(w)
 		},
